@@ -221,6 +221,7 @@ func main() {
 			{"I/2/reinsert", 6, 60}, {"I/3/reinsert", 5, 50}, {"I/4/reinsert", 4, 40}, {"I/8/reinsert", 3, 30},
 			{"C/2/fullroot", 8, 80}, {"C/3/fullroot", 8, 80}, {"C/4/fullroot", 6, 60}, {"C/8/fullroot", 4, 40},
 			// Clear(true/false) in clone programs whose trees share one small free list
+			{"W/alias", 10, 150},
 			{"C/2/clear", 8, 100}, {"C/3/clear", 6, 80}, {"C/4/clear", 4, 60}, {"C/8/clear", 2, 40},
 		}
 		if e.Thorough || e.Search {
@@ -244,9 +245,11 @@ func main() {
 		// mix the classes so that the case files the driver cuts are of similar size
 		e.Rnd.Shuffle(len(specs), func(i, j int) { specs[i], specs[j] = specs[j], specs[i] })
 		supervise(e, specs)
-		e.Meta["generator"] = "c03/8"
+		e.Meta["generator"] = "c03/9"
 	})
 }
 
 // the violation search concentrates on the family (wrapper / inner / clone / concurrent) that diverged
-func sameFamily(a, b string) bool { return a[0] == b[0] || (a[0] == 'M' && b[0] == 'P') || (a[0] == 'P' && b[0] == 'M') }
+func sameFamily(a, b string) bool {
+	return a[0] == b[0] || (a[0] == 'M' && b[0] == 'P') || (a[0] == 'P' && b[0] == 'M')
+}
